@@ -360,6 +360,33 @@ def run_cases(prop, spec, seed, n, tier, tag="main", release=False, extra_args=(
                 t_harness=t1 - t0, t_coq=time.time() - t1)
 
 
+def find_crashing_case(spec, seed, n, tier, release, budget=240):
+    """the harness died while running cases 0..n-1 of (seed): replay them one process each, in parallel, and
+    return (index, reason, output) of the first case whose process is killed by a signal or times out"""
+    t_end = time.time() + budget
+
+    def one(i):
+        if time.time() > t_end:
+            return i, None
+        cmd = [harness_bin(spec["bin"], release), "--replay", "%d:%d" % (seed, i), "--tier", tier]
+        try:
+            p = subprocess.run(cmd, cwd=HARNESS, timeout=60, env=ENV, stdout=subprocess.PIPE,
+                               stderr=subprocess.STDOUT, text=True, errors="replace")
+        except subprocess.TimeoutExpired as e:
+            return i, ("case does not finish within 60 s (process killed)", str(e.stdout or "")[-3000:])
+        if p.returncode < 0 or p.returncode in (134, 139):
+            return i, ("the implementation kills the process on this case (exit status %d)" % p.returncode,
+                       p.stdout[-3000:])
+        return i, None
+
+    with cf.ThreadPoolExecutor(max_workers=int(os.environ.get("VP_JOBS", "16"))) as ex:
+        for i, r in ex.map(one, range(n)):
+            if r:
+                t_end = 0
+                return i, r[0], r[1]
+    return None
+
+
 def load_known(prop):
     p = os.path.join(ROOT, "known_findings.json")
     if not os.path.exists(p):
@@ -426,6 +453,14 @@ def check(prop, spec, tier="quick", seed=None, replay=None):
     n = spec["n_thorough"] if tier == "thorough" else spec["n_quick"]
     rc_ = run_cases(prop, spec, seed, n, tier, release=release)
     if not rc_["ok"]:
+        # the harness process died (abort, stack overflow, hang): look for the single case that kills it
+        crash = find_crashing_case(spec, seed, n, tier, release)
+        if crash:
+            idx, why, text = crash
+            path = write_replay(prop, seed, idx, why, text, "crash", dict(harness_detail=rc_["detail"][-1500:]))
+            write_evidence(prop, spec, tier, seed, t0, pg, ag, None, violations=1, note=why[:500])
+            print("VIOLATION property=%s replay=%s" % (prop, path))
+            return 1
         path = write_replay(prop, seed, -1, "harness run failed", rc_["detail"], "harness")
         write_evidence(prop, spec, tier, seed, t0, pg, ag, None, violations=1, note=rc_["detail"][:500])
         print("VIOLATION property=%s replay=%s no-failing-input-found" % (prop, path))
